@@ -12,7 +12,10 @@ import (
 	"errors"
 	"fmt"
 	"math"
+	"sort"
 	"strings"
+	"sync"
+	"time"
 
 	"github.com/samsarahq/thunder/batch"
 	"github.com/samsarahq/thunder/graphql"
@@ -450,4 +453,160 @@ func kfReproC12(rep *Report) {
 		return false, ""
 	})
 	rep.Repros["C12-7"] = Repro{Fails: f, Detail: d}
+}
+
+// ---- C10 ------------------------------------------------------------------------------------------------------
+
+type kfC10Row struct {
+	Id      int64 `sql:",primary"`
+	Small   int8
+	U32     uint32
+	Account int64
+	Flag    bool
+	N       int64 // a NOT NULL-typed Go field over a column that may hold NULL
+	P       int64 `sql:",implicitnull"`
+	S       string
+	W       time.Time
+	J       c10J `sql:",json"`
+}
+
+// kfC10World: one table on the fake database; queries alone and batched
+type kfC10World struct {
+	fdb *fsDB
+	db  *sqlgen.DB
+}
+
+func kfC10New(rows []map[string]driverValue) *kfC10World {
+	fdb, conn := newFakeDB()
+	fdb.createTable("kfrows", []string{"id", "small", "u32", "account", "flag", "n", "p", "s", "w", "j"}, []string{"id"})
+	for _, r := range rows {
+		full := map[string]driverValue{"small": int64(0), "u32": int64(0), "account": int64(0), "flag": int64(0), "n": int64(0), "p": int64(0), "s": "", "w": c10TimeBase, "j": []byte(`{"K":0}`)}
+		for k, v := range r {
+			full[k] = v
+		}
+		fdb.tables["kfrows"].Rows = append(fdb.tables["kfrows"].Rows, full)
+	}
+	schema := sqlgen.NewSchema()
+	schema.MustRegisterType("kfrows", sqlgen.UniqueId, kfC10Row{})
+	return &kfC10World{fdb: fdb, db: sqlgen.NewDB(conn, schema)}
+}
+
+// run returns, per filter, the ids (or "error: …") alone and batched together
+func (w *kfC10World) run(filters []sqlgen.Filter) (alone, batched []string) {
+	res := func(out []*kfC10Row, err error) string {
+		if err != nil {
+			return "error: " + firstN(err.Error(), 60)
+		}
+		ids := []int64{}
+		for _, r := range out {
+			ids = append(ids, r.Id)
+		}
+		sort.Slice(ids, func(i, j int) bool { return ids[i] < ids[j] })
+		return fmt.Sprint(ids)
+	}
+	alone = make([]string, len(filters))
+	batched = make([]string, len(filters))
+	for i, f := range filters {
+		var out []*kfC10Row
+		err := w.db.Query(context.Background(), &out, f, nil)
+		alone[i] = res(out, err)
+	}
+	ctx := batch.WithBatching(context.Background())
+	var wg sync.WaitGroup
+	for i := range filters {
+		wg.Add(1)
+		go func(i int) {
+			defer wg.Done()
+			defer func() {
+				if p := recover(); p != nil {
+					batched[i] = "panic"
+				}
+			}()
+			var out []*kfC10Row
+			err := w.db.Query(ctx, &out, filters[i], nil)
+			batched[i] = res(out, err)
+		}(i)
+	}
+	wg.Wait()
+	return alone, batched
+}
+
+func kfC10Differs(rows []map[string]driverValue, filters []sqlgen.Filter) (bool, string) {
+	alone, batched := kfC10New(rows).run(filters)
+	for i := range filters {
+		if alone[i] != batched[i] {
+			return true, fmt.Sprintf("filter %v: alone %s, batched %s", filters[i], alone[i], batched[i])
+		}
+	}
+	return false, ""
+}
+
+func kfReproC10(rep *Report) {
+	two := []map[string]driverValue{{"id": int64(1)}, {"id": int64(2)}}
+	set := func(i int, k string, v driverValue) []map[string]driverValue {
+		out := []map[string]driverValue{{"id": int64(1)}, {"id": int64(2)}}
+		out[i][k] = v
+		return out
+	}
+	_ = two
+	companion := sqlgen.Filter{"id": int64(2)}
+	// C10-4: a filter value outside the column's range wrapped around in the tester
+	f, d := kfTry(func() (bool, string) {
+		// the companion call fetches the row that the wrapped value would match
+		fetch := sqlgen.Filter{"id": int64(1)}
+		if x, y := kfC10Differs(set(0, "small", int64(44)), []sqlgen.Filter{{"small": 300}, fetch}); x {
+			return x, "int8 column holding 44, " + y
+		}
+		return kfC10Differs(set(0, "u32", int64(4294967295)), []sqlgen.Filter{{"u32": -1}, fetch})
+	})
+	rep.Repros["C10-4"] = Repro{Fails: f, Detail: d}
+	// C10-5: whole floats and bools for integer / bool columns
+	f, d = kfTry(func() (bool, string) {
+		rows := []map[string]driverValue{{"id": int64(1), "account": int64(1234567), "small": int64(1), "flag": int64(1)}, {"id": int64(2), "account": int64(48)}}
+		return kfC10Differs(rows, []sqlgen.Filter{{"account": float64(1234567)}, {"account": float64(48)}, {"small": true}, {"flag": float64(1)}, {"flag": 1}})
+	})
+	rep.Repros["C10-5"] = Repro{Fails: f, Detail: d}
+	// C10-6: a pointer to a pointer
+	f, d = kfTry(func() (bool, string) {
+		x := int64(7)
+		px := &x
+		return kfC10Differs(set(0, "account", int64(7)), []sqlgen.Filter{{"account": &px}, companion})
+	})
+	rep.Repros["C10-6"] = Repro{Fails: f, Detail: d}
+	// C10-7: a time with a part finer than a microsecond (the fake database, like the MySQL driver, cuts the parameter off)
+	f, d = kfTry(func() (bool, string) {
+		at := c10TimeBase.Add(5 * time.Second)
+		return kfC10Differs(set(0, "w", at), []sqlgen.Filter{{"w": at.Add(300 * time.Nanosecond)}, companion})
+	})
+	rep.Repros["C10-7"] = Repro{Fails: f, Detail: d}
+	// C10-8 (known): NULL in a column whose Go field is not a pointer
+	f, d = kfTry(func() (bool, string) {
+		return kfC10Differs(set(0, "n", nil), []sqlgen.Filter{{"n": nil}, {"n": 0}})
+	})
+	rep.Repros["C10-8"] = Repro{Fails: f, Detail: d}
+	// C10-9 (known): a literal zero stored in an implicitnull column
+	f, d = kfTry(func() (bool, string) {
+		rows := []map[string]driverValue{{"id": int64(1), "p": int64(0)}, {"id": int64(2), "p": nil}}
+		return kfC10Differs(rows, []sqlgen.Filter{{"p": 0}, {"id": int64(1)}})
+	})
+	rep.Repros["C10-9"] = Repro{Fails: f, Detail: d}
+	// C10-10 (known): one row that cannot be decoded fails every call of the batch
+	f, d = kfTry(func() (bool, string) {
+		return kfC10Differs(set(0, "j", []byte(`{corrupt`)), []sqlgen.Filter{{"id": int64(1)}, companion})
+	})
+	rep.Repros["C10-10"] = Repro{Fails: f, Detail: d}
+	// C10-11 (known): the tester compares strings byte by byte; MySQL's default collations do not
+	f, d = kfTry(func() (bool, string) {
+		schema := sqlgen.NewSchema()
+		schema.MustRegisterType("kfrows", sqlgen.UniqueId, kfC10Row{})
+		t, err := schema.MakeTester("kfrows", sqlgen.Filter{"s": "abc"})
+		if err != nil {
+			return false, ""
+		}
+		if !t.Test(&kfC10Row{Id: 1, S: "ABC"}) {
+			return true, "WHERE s = 'abc' selects the row holding 'ABC' under MySQL's default (case-insensitive, PAD SPACE) collations; the tester does not hand it to the query"
+		}
+		return false, ""
+	})
+	rep.Repros["C10-11"] = Repro{Fails: f, Detail: d}
 }
